@@ -44,12 +44,69 @@ class DelayPackages(ContentEvaluationResultBasedPackageResolver):
         return await super().get_condition_expression(package_key)
 
 
+# ---- evaluators written the way a user writes them: one evaluate_<key> method per condition, some async, some not ----------------
+def _rc_method(key: str, is_async: bool):
+    def value():
+        try:
+            return evalenv.current_cer.get().requirement_constraints[key]
+        except KeyError as e:
+            raise NotImplementedError(f"No result was provided for condition '{key}'.") from e
+
+    if is_async:
+        async def method(self, evaluatable_data, context):  # pylint:disable=unused-argument
+            await sleeps("rc", key)
+            return value()
+    else:
+        def method(self, evaluatable_data, context):  # pylint:disable=unused-argument
+            COMPLETIONS.append(("rc", key))
+            return value()
+    return method
+
+
+def _fc_method(key: str, is_async: bool):
+    def value():
+        from ahbicht.models.condition_nodes import EvaluatedFormatConstraint
+        try:
+            v = evalenv.current_cer.get().format_constraints[key]
+        except KeyError as e:
+            raise NotImplementedError(f"No result was provided for format constraint '{key}'.") from e
+        return EvaluatedFormatConstraint(format_constraint_fulfilled=v.format_constraint_fulfilled, error_message=v.error_message)
+
+    if is_async:
+        async def method(self, entered_input):  # pylint:disable=unused-argument
+            await sleeps("fc", key)
+            return value()
+    else:
+        def method(self, entered_input):  # pylint:disable=unused-argument
+            COMPLETIONS.append(("fc", key))
+            return value()
+    return method
+
+
+def _method_based():
+    from ahbicht.content_evaluation.evaluationdatatypes import EvaluationContext
+    from ahbicht.content_evaluation.fc_evaluators import FcEvaluator
+    from ahbicht.content_evaluation.rc_evaluators import RcEvaluator
+
+    rc_ns = {f"evaluate_{k}": _rc_method(str(k), k % 3 != 0) for k in list(range(1, 500)) + list(range(2000, 2500))}
+    rc_ns["_get_default_context"] = lambda self: EvaluationContext(scope=None)
+    fc_ns = {f"evaluate_{k}": _fc_method(str(k), k % 3 != 1) for k in range(901, 1000)}
+    return type("MethodRc", (RcEvaluator,), rc_ns)(), type("MethodFc", (FcEvaluator,), fc_ns)()
+
+
 def configure():
+    """FV2210: ContentEvaluationResult-based evaluators that suspend on schedule; FV2310: evaluate_<key>-method evaluators (sync and async
+    methods mixed, the async ones suspend on schedule) over the same context-local data.  evalenv.current_fv selects per evaluation."""
     provs = [DelayRc(), DelayFc(), DelayHints(), DelayPackages()]
     for p in provs:
         p.edifact_format = evalenv.FMT
         p.edifact_format_version = evalenv.FV
-    evalenv.configure_cer_based(extra=provs)
+    mrc, mfc = _method_based()
+    more = [mrc, mfc, DelayHints(), DelayPackages()]
+    for p in more:
+        p.edifact_format = evalenv.FMT
+        p.edifact_format_version = evalenv.FV_METHODS
+    evalenv.configure_cer_based(extra=provs + more)
 
 
 def set_schedule(d: Dict[Tuple[str, str], int]):
